@@ -23,7 +23,7 @@ public:
 };
 static void h_install_exit_hook(void) { PlatformSpecificLongJmp = h_exit_hook; }
 static MemoryLeakDetector* det_;
-static TestMemoryAllocator* fam_[9];   // 0-2 the default families; 3-5 an accounting wrapper of each; 6-8 an accounting wrapper of that wrapper
+static TestMemoryAllocator* fam_[9];   // 0-2 the default families (3-8: wrapper allocators, only in wwrap.cpp)
 
 extern "C" {
 void h_init(void)
@@ -36,20 +36,6 @@ void h_init(void)
     static MemoryLeakDetector det(&rep);
     det_ = &det;
     det.enable();
-}
-// wrapper allocators (C06: "all pairs of allocating/releasing families and wrapper allocators"); only the harnesses that use them pay for them
-void h_init_wrappers(void)
-{
-    static MemoryAccountant accountant;
-    static AccountingTestMemoryAllocator w1a(accountant, fam_[0]), w1b(accountant, fam_[1]), w1c(accountant, fam_[2]);
-    static AccountingTestMemoryAllocator w2a(accountant, &w1a), w2b(accountant, &w1b), w2c(accountant, &w1c);
-    fam_[3] = &w1a; fam_[4] = &w1b; fam_[5] = &w1c; fam_[6] = &w2a; fam_[7] = &w2b; fam_[8] = &w2c;
-}
-// the family the detector compares for allocator #fam (the only thing its mismatch decision reads from a wrapper)
-int h_actual_family(int fam)
-{
-    TestMemoryAllocator* a = fam_[fam]->actualAllocator();
-    return a == fam_[0] ? 0 : a == fam_[1] ? 1 : a == fam_[2] ? 2 : -1;
 }
 char* h_alloc(int fam, unsigned long size, int separate) { return det_->allocMemory(fam_[fam], size, "a.c", 11, separate != 0); }
 void h_free(int fam, char* p, int separate) { det_->deallocMemory(fam_[fam], p, "f.c", 22, separate != 0); }
